@@ -129,13 +129,25 @@ def commit_info(repo, sha) -> dict:
     return info
 
 
+_BLOBS: dict[str, bytes] = {}   # content-addressed, so valid across the scratch repositories
+_TREES: dict[str, dict[str, bytes]] = {}
+
+
+def blob(repo, sha: str) -> bytes:
+    if sha not in _BLOBS:
+        _BLOBS[sha] = git(repo, "cat-file", "blob", sha, binary=True)
+    return _BLOBS[sha]
+
+
 def tree_of(repo, sha) -> dict[str, bytes]:
+    if sha in _TREES:
+        return dict(_TREES[sha])
     out = {}
-    names = git(repo, "ls-tree", "-r", "-z", "--name-only", sha, binary=True).split(b"\0")
-    for n in names:
-        if n:
-            p = n.decode("utf-8")
-            out[p] = git(repo, "show", f"{sha}:{p}", binary=True)
+    for ent in git(repo, "ls-tree", "-r", "-z", sha, binary=True).split(b"\0"):
+        if ent:
+            meta, _, name = ent.partition(b"\t")
+            out[name.decode("utf-8")] = blob(repo, meta.split()[2].decode())
+    _TREES[sha] = dict(out)
     return out
 
 
@@ -144,8 +156,7 @@ def index_of(wt) -> dict[str, bytes]:
     for ent in git(wt, "ls-files", "-s", "-z", binary=True).split(b"\0"):
         if ent:
             meta, _, name = ent.partition(b"\t")
-            blob = meta.split()[1].decode()
-            out[name.decode("utf-8")] = git(wt, "cat-file", "blob", blob, binary=True)
+            out[name.decode("utf-8")] = blob(wt, meta.split()[1].decode())
     return out
 
 
@@ -379,9 +390,9 @@ PATHS_NEW = ["new.txt", "sub/new2.txt", "sub/deep/./n3.txt"]
 PATH_NODIR = "nodir/x.txt"
 HANDLERS = [
     dict(revision="master", subdir="/"),
-    dict(revision="dev", subdir="/"),
-    dict(revision="refs/heads/feature/x", subdir="/"),
     dict(revision="master", subdir="sub"),
+    dict(revision="refs/heads/feature/x", subdir="/"),
+    dict(revision="dev", subdir="/"),
     dict(revision="v1", subdir="/"),
 ]
 REMOTE_BRANCHES = [None, None, "out", "feature/y", "refs/heads/z", "dev"]
@@ -436,7 +447,7 @@ def systematic(ctx: Ctx, hdesc) -> list[list[dict]]:
     seqs = []
     optsets = [dict(), dict(dry_run=True), dict(remote_branch="out"), dict(ignore_empty=False)]
     if not ctx.thorough:
-        optsets = optsets[: 2 if hdesc["subdir"] != "/" or hdesc["revision"] != "master" else 4]
+        optsets = optsets[: 1 if hdesc["revision"] != "master" else 3]
     for o in optsets:
         # aborts in the body
         for k in range(len(base_body) + 1):
@@ -688,7 +699,7 @@ def run(ctx: Ctx) -> Outcome:
     base = make_repo(ctx.scratch / "base")
     reqs, obss, metas = [], [], []
     n = 0
-    handlers = HANDLERS if ctx.thorough else HANDLERS[:4]
+    handlers = HANDLERS if ctx.thorough else HANDLERS[:3]
     for hdesc in handlers:
         for seq in systematic(ctx, hdesc):
             n += 1
@@ -699,7 +710,7 @@ def run(ctx: Ctx) -> Outcome:
         n += 1
         run_sequence(ctx, out, base, dict(revision=sha, subdir="/"),
                      [dict(remote_branch=rb, body=[("w", "a.txt", b"h")], git_fault=None)], n, fg, reqs, obss, metas)
-    for _ in range(ctx.pick(40, 400)):
+    for _ in range(ctx.pick(30, 300)):
         hdesc = ctx.rng.choice(HANDLERS)
         current = dict(INITIAL_FILES)
         seq = [rand_txn(ctx, hdesc, current) for _ in range(ctx.rng.randint(1, 4))]
